@@ -3,6 +3,7 @@ package rules
 import (
 	"fmt"
 	"go/types"
+	"os"
 	"sort"
 	"strings"
 	"sync"
@@ -328,129 +329,164 @@ func appRunTable(c *core.Ctx, runFn *ssa.Function, runnersField string, maxLen i
 	ro := c.Roles()
 	rs = rows{}
 	cfgInit := c.IfaceMethod("configure", "Configure", "Initialize")
-	for n := 0; n <= maxLen; n++ {
-		var trace []string
-		var stopped, wantErr, phaseFailed bool
-		var after []string
-		build := func() (absint.Oracle, []absint.Value, []absint.Value) {
-			trace, stopped, wantErr, phaseFailed, after = nil, false, false, false, nil
-			t := newTbl(c)
-			app := absint.NewTok("app", "app")
-			rl := &absint.List{}
-			for i := 1; i <= n; i++ {
-				rl.Elems = append(rl.Elems, absint.NewTok(fmt.Sprintf("R%d", i), "runner"))
+	// twice: with the ordering helper as an oracle (what the routine does with the helper's answer), and - on
+	// runners that take no part in the ordering contract - with the helper itself interpreted (what the routine and
+	// the helper do to each other's slices: the answer may be the very slice that was handed in)
+	for _, realSorter := range []bool{false, true} {
+		nMax := maxLen
+		if realSorter {
+			nMax = maxLen + 1
+			if nMax < 3 {
+				nMax = 3
 			}
-			app.Fields[runnersField] = rl
-			collab := map[string]*absint.Tok{}
-			t.field = func(ip *absint.Interp, obj *absint.Tok, name string, typ types.Type) absint.Value {
-				if obj == app && types.IsInterface(typ) {
-					if collab[name] == nil {
-						collab[name] = absint.NewTok("app."+name, "collaborator")
-					}
-					return collab[name]
+		}
+		for n := 0; n <= nMax; n++ {
+			if realSorter && n < 2 {
+				continue
+			}
+			var trace []string
+			var stopped, wantErr, phaseFailed bool
+			var after []string
+			build := func() (absint.Oracle, []absint.Value, []absint.Value) {
+				trace, stopped, wantErr, phaseFailed, after = nil, false, false, false, nil
+				t := newTbl(c)
+				app := absint.NewTok("app", "app")
+				rl := &absint.List{}
+				for i := 1; i <= n; i++ {
+					rl.Elems = append(rl.Elems, absint.NewTok(fmt.Sprintf("R%d", i), "runner"))
 				}
-				return nil
-			}
-			event := func(name string) func(ip *absint.Interp, a []absint.Value) absint.Value {
-				return func(ip *absint.Interp, a []absint.Value) absint.Value {
-					e := name
-					if name == "run" {
-						e = "run(" + absint.Show(a[0]) + ")"
-					}
-					if stopped {
-						after = append(after, e)
-					}
-					trace = append(trace, e)
-					if ip.Choose(2, e+" outcome") == 1 {
-						if !stopped && name != "run" {
-							phaseFailed = true
+				app.Fields[runnersField] = rl
+				collab := map[string]*absint.Tok{}
+				t.field = func(ip *absint.Interp, obj *absint.Tok, name string, typ types.Type) absint.Value {
+					if obj == app && types.IsInterface(typ) {
+						if collab[name] == nil {
+							collab[name] = absint.NewTok("app."+name, "collaborator")
 						}
-						stopped, wantErr = true, true
-						trace = append(trace, "!")
-						return t.newErr(name)
+						return collab[name]
 					}
-					return absint.Nil{}
+					return nil
 				}
-			}
-			if cfgInit != nil {
-				t.invoke[cfgInit] = event("config")
-			}
-			t.invoke[ro.FPrepare] = event("prepare")
-			t.invoke[ro.FRefresh] = event("refresh")
-			t.invoke[ro.RunnerRun] = event("run")
-			if ro.Sorter != nil {
-				var sorts []string
-				srt := reversingSorter(&sorts)
-				t.callee[ro.Sorter] = func(ip *absint.Interp, a []absint.Value) absint.Value {
-					trace = append(trace, "sort")
-					return srt(ip, a)
-				}
-			}
-			return t, []absint.Value{receiverFor(runFn, c.Named("app", "App"), app)}, nil
-		}
-		check := func(ip *absint.Interp, out absint.Outcome) {
-			w := fmt.Sprintf("%d runner(s): trace=%v => %s", n, trace, showOutcome(out))
-			if out.Panic != nil {
-				rs.fail("first-error", "PANIC "+w)
-				return
-			}
-			isErr := len(out.Ret) == 1 && isErrTok(out.Ret[0])
-			var ev []string
-			for _, e := range trace {
-				if e != "sort" && e != "!" {
-					ev = append(ev, e)
-				}
-			}
-			// expected prefix
-			want := []string{"config", "prepare", "refresh"}
-			for i := n; i >= 1; i-- {
-				want = append(want, fmt.Sprintf("run(sorted:R%d)", i))
-			}
-			rs.hit("phases")
-			okPrefix := len(ev) <= len(want)
-			for i := 0; okPrefix && i < len(ev); i++ {
-				okPrefix = ev[i] == want[i]
-			}
-			if !okPrefix {
-				row := "phases"
-				for _, e := range ev {
-					if strings.HasPrefix(e, "run(") && len(ev) >= 3 && ev[0] == "config" && ev[1] == "prepare" && ev[2] == "refresh" {
-						row = "runners"
+				event := func(name string) func(ip *absint.Interp, a []absint.Value) absint.Value {
+					return func(ip *absint.Interp, a []absint.Value) absint.Value {
+						e := name
+						if name == "run" {
+							e = "run(" + absint.Show(a[0]) + ")"
+						}
+						if stopped {
+							after = append(after, e)
+						}
+						trace = append(trace, e)
+						if ip.Choose(2, e+" outcome") == 1 {
+							if !stopped && name != "run" {
+								phaseFailed = true
+							}
+							stopped, wantErr = true, true
+							trace = append(trace, "!")
+							return t.newErr(name)
+						}
+						return absint.Nil{}
 					}
 				}
-				rs.hit(row)
-				rs.fail(row, w+fmt.Sprintf(" expected a prefix of %v", want))
-				return
-			}
-			rs.hit("runners")
-			if !wantErr && len(ev) != len(want) {
-				row := "runners"
-				if len(ev) < 3 {
-					row = "phases"
+				if cfgInit != nil {
+					t.invoke[cfgInit] = event("config")
 				}
-				rs.fail(row, w+fmt.Sprintf(" expected %v", want))
+				t.invoke[ro.FPrepare] = event("prepare")
+				t.invoke[ro.FRefresh] = event("refresh")
+				t.invoke[ro.RunnerRun] = event("run")
+				if ro.Sorter != nil && !realSorter {
+					var sorts []string
+					srt := reversingSorter(&sorts)
+					t.callee[ro.Sorter] = func(ip *absint.Interp, a []absint.Value) absint.Value {
+						trace = append(trace, "sort")
+						return srt(ip, a)
+					}
+				}
+				if realSorter {
+					t.typeTest = func(v absint.Value, T types.Type) (bool, bool) {
+						if tok, ok := v.(*absint.Tok); ok && tok.Class == "runner" && types.IsInterface(T) {
+							if ar := c.Named("definition", "ApplicationRunner"); ar != nil && types.Identical(T, ar) {
+								return true, true
+							}
+							return false, true // a runner that is nothing but a runner
+						}
+						return false, false
+					}
+				}
+				return t, []absint.Value{receiverFor(runFn, c.Named("app", "App"), app)}, nil
 			}
-			rs.hit("first-error")
-			if len(after) != 0 {
-				if phaseFailed {
-					rs.fail("phases", w+fmt.Sprintf(" invoked after the failed phase: %v", after))
-				} else {
-					rs.fail("first-error", w+fmt.Sprintf(" invoked after the failure: %v", after))
+			check := func(ip *absint.Interp, out absint.Outcome) {
+				w := fmt.Sprintf("%d runner(s): trace=%v => %s", n, trace, showOutcome(out))
+				if out.Panic != nil {
+					rs.fail("first-error", "PANIC "+w)
+					return
+				}
+				isErr := len(out.Ret) == 1 && isErrTok(out.Ret[0])
+				var ev []string
+				for _, e := range trace {
+					if e != "sort" && e != "!" {
+						ev = append(ev, e)
+					}
+				}
+				// expected prefix
+				want := []string{"config", "prepare", "refresh"}
+				for i := n; i >= 1 && !realSorter; i-- {
+					want = append(want, fmt.Sprintf("run(sorted:R%d)", i))
+				}
+				for i := 1; i <= n && realSorter; i++ {
+					want = append(want, fmt.Sprintf("run(R%d)", i)) // outside the contract: registration order
+				}
+				rs.hit("phases")
+				okPrefix := len(ev) <= len(want)
+				for i := 0; okPrefix && i < len(ev); i++ {
+					okPrefix = ev[i] == want[i]
+				}
+				if !okPrefix {
+					row := "phases"
+					for _, e := range ev {
+						if strings.HasPrefix(e, "run(") && len(ev) >= 3 && ev[0] == "config" && ev[1] == "prepare" && ev[2] == "refresh" {
+							row = "runners"
+						}
+					}
+					rs.hit(row)
+					rs.fail(row, w+fmt.Sprintf(" expected a prefix of %v", want))
+					return
+				}
+				rs.hit("runners")
+				if !wantErr && len(ev) != len(want) {
+					row := "runners"
+					if len(ev) < 3 {
+						row = "phases"
+					}
+					rs.fail(row, w+fmt.Sprintf(" expected %v", want))
+				}
+				rs.hit("first-error")
+				if len(after) != 0 {
+					if phaseFailed {
+						rs.fail("phases", w+fmt.Sprintf(" invoked after the failed phase: %v", after))
+					} else {
+						rs.fail("first-error", w+fmt.Sprintf(" invoked after the failure: %v", after))
+					}
+				}
+				rs.hit("success")
+				if isErr != wantErr {
+					if phaseFailed {
+						rs.fail("phases", w+" a failed phase did not make the start fail")
+					} else {
+						rs.fail("success", w)
+					}
 				}
 			}
-			rs.hit("success")
-			if isErr != wantErr {
-				if phaseFailed {
-					rs.fail("phases", w+" a failed phase did not make the start fail")
-				} else {
-					rs.fail("success", w)
+			m, u := runTable(c, runFn, build, check)
+			runs += m
+			if u != "" {
+				if realSorter {
+					if os.Getenv("IOCVET_DEBUG") != "" {
+						fmt.Fprintln(os.Stderr, "REAL-SORTER variant undecided:", u)
+					}
+					break // the helper itself is decided by the sorter table; only its interplay is lost here
 				}
+				return rs, runs, u
 			}
-		}
-		m, u := runTable(c, runFn, build, check)
-		runs += m
-		if u != "" {
-			return rs, runs, u
 		}
 	}
 	return
